@@ -180,6 +180,20 @@ Proof.
   - rewrite xget_lupd_same by exact Ht. exact P.
 Qed.
 
+(* thread t, outside the announced phase of a native cv wait after the step, changes its own waiting flag (the flag of
+   its nsync_wait_n record) and its own next MuModel pc *)
+Lemma TInv_own xw m' q' t xs' : TInv xw -> (t < length (xthr xw))%nat ->
+  queue m' = queue (mw xw) -> (forall u, wlt m' u = wlt (mw xw) u) ->
+  (forall p, p <> t -> waiting m' p = waiting (mw xw) p) ->
+  wphase (x_pc xs') = false ->
+  TInv (mk_xw m' q' (xferred xw) (lupd (xthr xw) t xs')).
+Proof.
+  intros H0 Ht Q L W P p Wp Xp Wt. cbn [mw xferred] in *.
+  destruct (Nat.eq_dec p t) as [->|N]; [rewrite xget_lupd_same in Wp by exact Ht; congruence|].
+  rewrite xget_lupd_other in Wp by exact N. rewrite W in Wt by exact N.
+  apply (listed_same (mw xw)); [exact Q | exact L | apply H0; assumption].
+Qed.
+
 (* a step of mu.c by thread t *)
 Lemma TInv_mu xw t xs' : TInv xw -> (t < length (xthr xw))%nat ->
   (wphase (x_pc xs') = true -> wphase (x_pc (xget xw t)) = true) ->
@@ -240,11 +254,11 @@ Proof.
   destruct (mu_idle (mw xw) t) eqn:MI; try exact H0.
   assert (t < length (xthr xw))%nat as Ht by (apply xget_inb; rewrite Hx; discriminate).
   unfold xget in Hx.
-  destruct o as [o'|m| |]; xn Hx; rewrite ?nth_lupd_same by exact Ht; cbn [x_pc x_ops x_rets];
+  destruct o as [o'|m| | |[m|]]; xn Hx; rewrite ?nth_lupd_same by exact Ht; cbn [x_pc x_ops x_rets];
     (apply TInv_same; [exact H0 | exact Ht | reflexivity | | auto | auto |]);
     try (intros u; first [apply wlt_push_op | reflexivity]).
   all: cbn [x_pc wphase]; try discriminate.
-  destruct (held (get (mw xw) t)) as [m'|]; [destruct (mode_eqb m m')|]; cbn [wphase]; discriminate.
+  all: destruct (held (get (mw xw) t)) as [m'|]; [destruct (mode_eqb m m')|]; cbn [wphase]; discriminate.
 Qed.
 
 Ltac tW := let p := fresh "p" in let Hw := fresh "Hw" in
@@ -312,14 +326,14 @@ Proof.
   - (* XkLoad *) assert (t < length (xthr xw))%nat as Ht by (apply HtN; discriminate).
     destruct c; [|destruct (cvq xw)]; cbn [fst]; try exact H1; xn Hx; tsame H1 Ht Hx'.
   - (* XkSelect *) assert (t < length (xthr xw))%nat as Ht by (apply HtN; discriminate).
-    destruct (if bc then sel_broadcast (wtype (mw xw)) (cvq xw) else sel_signal (wtype (mw xw)) (cvq xw)) as [[wk kp] allr].
-    destruct wk; cbn [fst]; xn Hx; tsame H1 Ht Hx'.
+    destruct (if bc then sel_broadcast (xrd xw) (cvq xw) else sel_signal (xrd xw) (cvq xw)) as [[wk kp] allr].
+    destruct wk as [|f wk']; [|destruct (nrec xw f)]; cbn [fst]; xn Hx; tsame H1 Ht Hx'.
   - (* XvLoad1 *) assert (t < length (xthr xw))%nat as Ht by (apply HtN; discriminate).
     destruct (xfer_wanted (wtype (mw xw)) (word (mw xw)) k); cbn [fst]; xn Hx;
       [|unfold wake_loop; destruct (k_wake k)]; tsame H1 Ht Hx'.
   - (* XvCas1 *) assert (t < length (xthr xw))%nat as Ht by (apply HtN; discriminate).
     unfold cas. destruct (word (mw xw) =? wake_waiters_cas1_old old); cbv beta iota.
-    + destruct (xfer (wtype (mw xw)) (first_cant_acquire (wtype (mw xw)) old (k_wake k)) (k_wake k)) as [[moved stay] set_on].
+    + destruct (xfer (nrec xw) (wtype (mw xw)) (first_cant_acquire (wtype (mw xw)) old (k_wake k)) (k_wake k)) as [[moved stay] set_on].
       cbn [fst]. xn Hx. apply (TInv_upd xw _ t H1); cbn [mw xferred].
       * intros p N. now rewrite xget_lupd_other.
       * intros p [Hq | [u Hu]] _; [left; cbn [queue set_queue]; apply in_or_app; now left | right; exists u; exact Hu].
@@ -339,6 +353,47 @@ Proof.
     destruct (k_wake k) as [|p rest]; cbn [fst]; xn Hx; tsame H1 Ht Hx'.
   - (* XvV *) assert (t < length (xthr xw))%nat as Ht by (apply HtN; discriminate).
     cbn [fst]; xn Hx; unfold wake_loop; destruct (k_wake k); tsame H1 Ht Hx'.
+  - (* XnStore0 *) assert (t < length (xthr xw))%nat as Ht by (apply HtN; discriminate). cbn [fst]. xn Hx.
+    apply TInv_own; [exact H1 | exact Ht | reflexivity | intros; reflexivity | | reflexivity].
+    intros p N. cbn [waiting set_waiting]. now apply fupd_other.
+  - (* XnEnq *) assert (t < length (xthr xw))%nat as Ht by (apply HtN; discriminate). destruct Hp as (PI & _).
+    destruct om as [m|]; cbn [fst]; xn Hx.
+    + apply TInv_own; [exact H1 | exact Ht | reflexivity | | | reflexivity].
+      * intros u. change (wlt (mw xw) u) with (wlt (set_waiting (mw xw) t (negb (cv_enqueue_store1_new =? 0))) u).
+        apply wlt_set_pc; [cbn [thr set_waiting]; rewrite Hlen; exact Ht | exact PI | reflexivity].
+      * intros p N. cbn [waiting set_waiting set_pc set_t]. now apply fupd_other.
+    + apply TInv_own; [exact H1 | exact Ht | reflexivity | intros; reflexivity | | reflexivity].
+      intros p N. cbn [waiting set_waiting]. now apply fupd_other.
+  - (* XnUnlock *) assert (t < length (xthr xw))%nat as Ht by (apply HtN; discriminate).
+    unfold mu_step. destruct (step (mw xw) t) as [m' e] eqn:E. xnorm.
+    assert (m' = fst (step (mw xw) t)) as Em by now rewrite E.
+    cbn [mw]. destruct (mu_pc_idle m' t); cbn [fst]; xn Hx; rewrite Em.
+    + apply TInv_mu; [exact H1 | exact Ht | cbn [x_pc wphase]; discriminate].
+    + apply TInv_mu0; exact H1.
+  - (* XnReady *) assert (t < length (xthr xw))%nat as Ht by (apply HtN; discriminate).
+    destruct (cv_ready_time_load1_guard (b2z (waiting (mw xw) t))); cbn [fst]; xn Hx; tsame H1 Ht Hx'.
+  - (* XnSem *) assert (t < length (xthr xw))%nat as Ht by (apply HtN; discriminate).
+    destruct c; [destruct (0 <? sem (mw xw) t)|]; cbn [fst]; try exact H1; xn Hx; tsame H1 Ht Hx'.
+  - (* XnDeq *) assert (t < length (xthr xw))%nat as Ht by (apply HtN; discriminate). destruct Hp as (PI & _).
+    destruct (waiting (mw xw) t && cv_dequeue_store1_guard (b2z (mem_id t (cvq xw)))); [destruct om as [m|]|]; cbn [fst]; xn Hx;
+      [| |tsame H1 Ht Hx'].
+    + apply TInv_own; [exact H1 | exact Ht | reflexivity | | | reflexivity].
+      * intros u. change (wlt (mw xw) u) with (wlt (set_waiting (mw xw) t (negb (cv_dequeue_store1_new =? 0))) u).
+        apply wlt_set_pc; [cbn [thr set_waiting]; rewrite Hlen; exact Ht | exact PI | reflexivity].
+      * intros p N. cbn [waiting set_waiting set_pc set_t]. now apply fupd_other.
+    + apply TInv_own; [exact H1 | exact Ht | reflexivity | intros; reflexivity | | reflexivity].
+      intros p N. cbn [waiting set_waiting]. now apply fupd_other.
+  - (* XnSpin *) assert (t < length (xthr xw))%nat as Ht by (apply HtN; discriminate). destruct Hp as (PI & _).
+    destruct (waiting (mw xw) t); [|destruct om as [m|]]; cbn [fst]; try exact H1; xn Hx; [|tsame H1 Ht Hx'].
+    apply TInv_own; [exact H1 | exact Ht | reflexivity | | reflexivity | reflexivity].
+    intros u. apply wlt_set_pc; [rewrite Hlen; exact Ht | exact PI | reflexivity].
+  - (* XnReacq *) assert (t < length (xthr xw))%nat as Ht by (apply HtN; discriminate).
+    unfold mu_step. destruct (step (mw xw) t) as [m' e] eqn:E. xnorm.
+    assert (m' = fst (step (mw xw) t)) as Em by now rewrite E.
+    cbn [mw]. destruct (mu_pc_idle m' t); cbn [fst]; xn Hx.
+    + rewrite nth_lupd_same by exact Ht. cbn [x_ops x_rets]. rewrite Em.
+      apply TInv_mu; [exact H1 | exact Ht | cbn [x_pc wphase]; discriminate].
+    + rewrite Em. apply TInv_mu0; exact H1.
 Qed.
 End TransferInvariant.
 
@@ -432,6 +487,8 @@ Proof.
     try (apply proj1 in Hp; destruct (t_pc (get (mw xw) u)); try discriminate Hp; now elim Hw).
   - cbn [snd] in A. congruence.
   - destruct (mu_pc_idle (mw (set_mw xw m')) u); cbn [snd] in A; congruence.
+  - destruct (mu_pc_idle (mw (set_mw xw m')) u); cbn [snd] in A; congruence.
+  - destruct (t_pc (get (mw xw) u)); try discriminate Hp; now elim Hw.
 Qed.
 
 Lemma no_lost_transfer_partial : forall progs sched l p,
